@@ -56,6 +56,27 @@ def chi2_sf(x, df):
     return gammainc_upper(df / 2.0, x / 2.0)
 
 
+def pool_small(expected, threshold):
+    """a partition of the category indices in which every class has expected count >= threshold
+    (chi-square's validity condition): the smallest categories are merged, smallest first; a
+    leftover that is still too small joins the next class.  Categories with expectation 0 are left
+    out (they are checked exactly, not statistically)."""
+    idx = sorted((i for i, e in enumerate(expected) if e > 0), key=lambda i: expected[i])
+    classes, cur, acc = [], [], 0.0
+    for i in idx:
+        cur.append(i)
+        acc += expected[i]
+        if acc >= threshold:
+            classes.append(cur)
+            cur, acc = [], 0.0
+    if cur:
+        if classes:
+            classes[-1].extend(cur)
+        else:
+            classes.append(cur)
+    return classes
+
+
 def population(rng, family, size):
     off = rng.randrange(10 ** 9)
     if family == "sequential":
@@ -132,29 +153,32 @@ def run(ctx):
         ctx.count("family:" + fam)
         # goodness of fit
         for si in range(len(salts)):
-            chi = 0.0
-            df = -1
+            exps = [size * float(fracs[i] / total) for i in range(n)]
             for i in range(n):
-                exp = size * float(fracs[i] / total)
-                if exp > 0:
-                    chi += (counts[si][i] - exp) ** 2 / exp
-                    df += 1
-                elif counts[si][i]:
+                if exps[i] == 0 and counts[si][i]:
                     ctx.violation(f"zero-weight group g{i} received {counts[si][i]} units", {"weights": ws, "counts": counts[si]})
+            # cells with an expected count under 5 are pooled: the chi-square law does not describe them
+            classes = pool_small(exps, 5.0)
+            chi = sum((sum(counts[si][i] for i in c) - sum(exps[i] for i in c)) ** 2 / sum(exps[i] for i in c) for c in classes)
+            df = len(classes) - 1
             p = chi2_sf(chi, df) if df > 0 else 1.0
             stats.append({"test": "gof", "family": fam, "df": df, "chi2": round(chi, 3), "p": p})
             if p < ALPHA:
                 ctx.violation(f"group frequencies inconsistent with weights {ws} over {size} {fam} ids (salt {salts[si]!r}): chi2={chi:.1f} "
                               f"df={df} p={p:.2e}", {"family": fam, "weights": ws, "salt": salts[si], "counts": counts[si], "chi2": chi, "p": p})
         # independence across salts
-        rows = [sum(r) for r in table]
-        cols = [sum(table[i][j] for i in range(n)) for j in range(n)]
+        # groups are pooled until every cell of the pooled table has an expected count of at least 5
+        classes = pool_small([size * float(f / total) for f in fracs], math.sqrt(5.0 * size))
+        k = len(classes)
+        tab = [[sum(table[i][j] for i in ci for j in cj) for cj in classes] for ci in classes]
+        rows = [sum(r) for r in tab]
+        cols = [sum(tab[i][j] for i in range(k)) for j in range(k)]
         chi, r_used, c_used = 0.0, sum(1 for r in rows if r), sum(1 for c in cols if c)
-        for i in range(n):
-            for j in range(n):
+        for i in range(k):
+            for j in range(k):
                 exp = rows[i] * cols[j] / size
                 if exp > 0:
-                    chi += (table[i][j] - exp) ** 2 / exp
+                    chi += (tab[i][j] - exp) ** 2 / exp
         df = (r_used - 1) * (c_used - 1)
         p = chi2_sf(chi, df) if df > 0 else 1.0
         stats.append({"test": "independence", "family": fam, "df": df, "chi2": round(chi, 3), "p": p})
